@@ -143,8 +143,19 @@ class AbstractObject:
         return None
 
 
+class ExcValue(AbstractObject):
+    """The exception a handler caught (exact_exceptions): its class is known, its text is not."""
+
+    def __init__(self, explorer: "Explorer", cls: str) -> None:
+        self.explorer = explorer
+        self.cls = cls
+
+    def peval_isinstance(self, class_names: List[str]) -> Optional[bool]:
+        return any(self.explorer._exc_subclass(self.cls, n) for n in class_names)
+
+
 Oracle = Callable[[ast.expr, Dict[str, Any]], Optional[bool]]
-_in_test: Dict[int, bool] = {}  # guards the value() <-> test() mutual recursion
+_in_test: Dict[Tuple[int, int], bool] = {}  # guards the value() <-> test() mutual recursion (per explorer: a recursive function is run by nested explorers)
 CallHook = Callable[[ast.Call, List[Any], Dict[str, Any]], Any]
 Outcome = Tuple[str, Optional[ast.AST], Any]
 
@@ -167,6 +178,14 @@ class Explorer:
         self.enter_with = enter_with
         self.split_conditionals = False  # fork a path at an undecided conditional expression inside a value
         self.call_function: Optional[Callable[[FuncInfo, List[Any]], Any]] = None  # runs a package function abstractly (rules/model.py)
+        # exact exceptions (for runs on concrete samples): a statement that certainly raises class C leaves the `try`
+        # body there, the first handler that catches C runs from the state at that point, an uncaught C goes on to the
+        # enclosing `try` or out of the function; handlers of a body that completes are not explored
+        self.exact_exceptions = False
+        self._frames: List[List[Tuple[str, Dict[str, Any]]]] = []
+        # a heap (for single-path runs on concrete samples): plain lists and dicts are changed in place, so that a
+        # change made through one reference (`parent.insert(...)`) is seen through every other (`data`)
+        self.heap = False
         self.outcomes: List[Outcome] = []
         self.envs: List[Dict[str, Any]] = []  # environment of each outcome, same order
 
@@ -269,7 +288,7 @@ class Explorer:
             isinstance(e, ast.Call) and isinstance(e.func, ast.Name) and e.func.id == "isinstance"
         ):
             # a boolean the test oracle can decide is that boolean
-            d = self.test(e, env) if not _in_test.get(id(e)) else None
+            d = self.test(e, env) if not _in_test.get((id(self), id(e))) else None
             if d is not None:
                 return d
         if isinstance(e, ast.JoinedStr):
@@ -346,9 +365,62 @@ class Explorer:
                     if acc_ is UNKNOWN:
                         return UNKNOWN
                 return acc_
-        if isinstance(e, ast.Call) and self.enter_with and isinstance(e.func, ast.Name) and isinstance(env.get(e.func.id), Callable_) and not e.keywords and not any(
-                isinstance(a_, ast.Starred) for a_ in e.args):
-            return self.apply(env[e.func.id], [self.value(a_, env) for a_ in e.args], e)
+        if isinstance(e, ast.Call) and self.enter_with and isinstance(e.func, (ast.Call, ast.Subscript, ast.IfExp)):
+            # a computed callee (`getattr(self, name)(...)`, `TABLE[kind](...)`): evaluated first, then called
+            fv_c = self.value(e.func, env)
+            if isinstance(fv_c, Callable_):
+                env = dict(env)
+                env["$callee"] = fv_c
+                e = ast.copy_location(ast.Call(func=ast.copy_location(ast.Name(id="$callee", ctx=ast.Load()), e), args=e.args, keywords=e.keywords), e)
+            elif self.heap:
+                raise AnalysisError(f"partial evaluation of {self.fn.qualname}: `{ast.unparse(e)[:60]}` calls a value that is not known")
+        if isinstance(e, ast.Call) and self.enter_with and isinstance(e.func, ast.Name) and isinstance(env.get(e.func.id), Callable_):
+            # a call of a callable the path holds (`builder = getattr(self, name)` ... `builder(**kwargs)`)
+            pos_c: List[Any] = []
+            kw_c: Dict[str, Any] = {}
+            known_c = True
+            for a_ in e.args:
+                if isinstance(a_, ast.Starred):
+                    sv_c = self.value(a_.value, env)
+                    if isinstance(sv_c, (list, tuple)):
+                        pos_c.extend(sv_c)
+                    else:
+                        known_c = False
+                else:
+                    pos_c.append(self.value(a_, env))
+            for k_ in e.keywords:
+                if k_.arg is None:
+                    dv_c = self.value(k_.value, env)
+                    if isinstance(dv_c, dict) and all(isinstance(x, str) for x in dv_c):
+                        kw_c.update(dv_c)
+                    else:
+                        known_c = False
+                else:
+                    kw_c[k_.arg] = self.value(k_.value, env)
+            if known_c:
+                return self.apply(env[e.func.id], pos_c, e, kw_c)
+            if self.heap:
+                raise AnalysisError(f"partial evaluation of {self.fn.qualname}: the arguments of `{ast.unparse(e)[:60]}` are not known, and the call may change the sample")
+            return UNKNOWN
+        if (isinstance(e, ast.Call) and self.heap and isinstance(e.func, ast.Attribute) and not e.keywords
+                and e.func.attr in ("append", "extend", "insert", "pop", "remove", "clear", "update", "setdefault", "reverse", "popitem")
+                and isinstance(e.func.value, (ast.Name, ast.Attribute, ast.Subscript))):
+            target_h = self.value(e.func.value, env)
+            if isinstance(target_h, (list, dict)) and not isinstance(target_h, AbstractObject):
+                args_h = [self.value(a_, env) for a_ in e.args]
+                if any(a_ is UNKNOWN or isinstance(a_, Text) for a_ in args_h) or not hasattr(target_h, e.func.attr):
+                    raise AnalysisError(f"partial evaluation of {self.fn.qualname}: `{ast.unparse(e)[:60]}` changes a container with a value that is not known")
+                try:
+                    return getattr(target_h, e.func.attr)(*args_h)
+                except (IndexError, KeyError, ValueError, TypeError) as err:
+                    raise _PathRaises(type(err).__name__) from err
+        if (isinstance(e, ast.Call) and self.enter_with and isinstance(e.func, ast.Attribute) and isinstance(e.func.value, ast.Name) and e.func.value.id == "copy"
+                and "copy" not in env and e.func.attr in ("deepcopy", "copy") and len(e.args) == 1 and not e.keywords):
+            v_c = self.value(e.args[0], env)
+            if _foldable(v_c):
+                import copy as _copy_mod
+
+                return getattr(_copy_mod, e.func.attr)(v_c)
         if isinstance(e, ast.Call):
             args = [self.value(a, env) for a in e.args]
             if self.on_call is not None:
@@ -441,6 +513,9 @@ class Explorer:
                     gv = self.folder.global_value(self.fn.module, "getitem")
                 except Exception:  # noqa: BLE001
                     gv = None
+                if (isinstance(gv, ExtRef) and str(gv.name) in ("operator.getitem", "getitem") and self.enter_with and not isinstance(args[0], (Text, AbstractObject))
+                        and (args[0] is None or isinstance(args[0], (bool, int, float))) and isinstance(args[1], (int, str, slice))):
+                    raise _PathRaises("TypeError")  # a number, a boolean and null have no items
                 if isinstance(gv, ExtRef) and str(gv.name) in ("operator.getitem", "getitem") and isinstance(args[0], (tuple, list, dict, str)) and isinstance(
                         args[1], (int, str, slice)) and not isinstance(args[0], Text):
                     try:
@@ -523,6 +598,26 @@ class Explorer:
                         return getattr(recv, e.func.attr)(*args)
                     except Exception:  # noqa: BLE001
                         return UNKNOWN
+            if self.heap and isinstance(e.func, ast.Name) and e.func.id in env and (env[e.func.id] is UNKNOWN or isinstance(env[e.func.id], AbstractObject)):
+                # a run that keeps a heap must not skip a call it cannot follow: the call may change the sample
+                raise AnalysisError(f"partial evaluation of {self.fn.qualname}: `{ast.unparse(e)[:60]}` calls a value that is not known")
+        if (isinstance(e, ast.Call) and self.enter_with and isinstance(e.func, ast.Name) and e.func.id == "getattr" and "getattr" not in env and not e.keywords
+                and 2 <= len(e.args) <= 3):  # noqa: PLR2004
+            obj_g, name_g = self.value(e.args[0], env), self.value(e.args[1], env)
+            if isinstance(obj_g, AbstractObject) and isinstance(name_g, str) and not isinstance(name_g, Text):
+                got_g = obj_g.peval_getattr(name_g)
+                if got_g is not UNKNOWN:
+                    return got_g
+        if (isinstance(e, ast.Call) and self.enter_with and isinstance(e.func, ast.Name) and e.func.id == "next" and "next" not in env and not e.keywords
+                and 1 <= len(e.args) <= 2 and isinstance(e.args[0], (ast.GeneratorExp, ast.ListComp))):  # noqa: PLR2004
+            # the first item a comprehension over known sequences produces, or the default
+            items_n = self._comprehension(e.args[0], env)
+            if isinstance(items_n, list):
+                if items_n:
+                    return items_n[0]
+                if len(e.args) == 2:  # noqa: PLR2004
+                    return self.value(e.args[1], env)
+                raise _PathRaises("StopIteration")
         if self.value_oracle is not None:
             # sub-expressions the rule knows the value of become constants before folding
             vo = self.value_oracle
@@ -549,8 +644,107 @@ class Explorer:
         # a reference to something outside the package (or to an unbound `self`) is not a value
         return UNKNOWN if isinstance(v, ExtRef) else v
 
-    def apply(self, f: "Callable_", args: List[Any], at: ast.AST) -> Any:
+    def _propagate(self, cls: str, env: Dict[str, Any], at: ast.stmt) -> None:
+        if self._frames:
+            self._frames[-1].append((cls, env))
+        else:
+            self.raised.append(cls)
+            self.outcomes.append(("raise", at, cls))
+            self.envs.append(env)
+
+    def _class_name(self, e: Optional[ast.expr]) -> str:
+        """Canonical name of the exception class an expression names: the qualified name of a class of the package,
+        the dotted name of a class of the standard library, else the name as written."""
+        if e is None:
+            return "?"
+        if isinstance(e, ast.Call):
+            e = e.func
+        head = e
+        while isinstance(head, ast.Attribute):
+            head = head.value
+        try:
+            if isinstance(e, ast.Name):
+                gv = self.folder.global_value(self.fn.module, e.id)
+            else:
+                gv = self.folder.eval_in(e, self.fn.module, self.fn.cls)
+        except Exception:  # noqa: BLE001
+            gv = None
+        from .consteval import ClassRef as _CRx
+
+        if isinstance(gv, _CRx):
+            return gv.cls.qualname
+        if isinstance(gv, ExtRef):
+            return str(gv.name)
+        try:
+            return ast.unparse(e)
+        except Exception:  # noqa: BLE001
+            return "?"
+
+    def _raise_class(self, s: ast.Raise, env: Dict[str, Any]) -> str:
+        if s.exc is None:
+            return str(env.get("$exc") or "?")
+        if isinstance(s.exc, ast.Name) and s.exc.id in env:
+            if isinstance(env[s.exc.id], ExcValue):
+                return env[s.exc.id].cls
+            return str(env.get("$exc") or "?")  # `raise err`: the exception being handled
+        return self._class_name(s.exc)
+
+    def _catches(self, type_expr: Optional[ast.expr], cls: str, env: Dict[str, Any]) -> bool:
+        """Does `except <type_expr>` catch an exception of class `cls` (a canonical name of _class_name)?"""
+        if type_expr is None:
+            return True
+        if cls == "?":
+            raise AnalysisError(f"partial evaluation of {self.fn.qualname}: an exception of unknown class meets a handler")
+        names = [self._class_name(x) for x in (type_expr.elts if isinstance(type_expr, ast.Tuple) else [type_expr])]
+        return any(self._exc_subclass(cls, n) for n in names)
+
+    _EXT_EXC_BASES = {"json.JSONDecodeError": "ValueError", "JSONDecodeError": "ValueError", "json.decoder.JSONDecodeError": "ValueError",
+                      "re.error": "Exception", "error": "Exception", "re.PatternError": "Exception",
+                      "callee raises": None, "constructor raises": None}
+
+    def _exc_subclass(self, cls: str, base: str) -> bool:
+        import builtins as _b
+
+        if cls == base or base in ("BaseException",) or cls.split(".")[-1] == base.split(".")[-1] and ("." not in cls or "." not in base):
+            return True
+        if cls in ("callee raises", "constructor raises"):
+            raise AnalysisError(f"partial evaluation of {self.fn.qualname}: an exception of unknown class meets a handler")
+        repo = self.folder.repo
+        info = repo.get_class(cls)
+        if info is not None:
+            chain = list(repo.mro(info))
+        else:
+            chain = [cls]
+        binfo = repo.get_class(base)
+        bq = binfo.qualname if binfo is not None else base
+        for q in chain:
+            if q == bq or q.split(".")[-1] == bq:
+                return True
+            q0 = self._EXT_EXC_BASES.get(q, q)
+            if q0 is None:
+                continue
+            a_, b_ = getattr(_b, str(q0).split(".")[-1], None), getattr(_b, bq.split(".")[-1], None)
+            if isinstance(a_, type) and isinstance(b_, type) and issubclass(a_, BaseException) and issubclass(b_, BaseException) and repo.get_class(q) is None:
+                if issubclass(a_, b_):
+                    return True
+        return False
+
+    def apply(self, f: "Callable_", args: List[Any], at: ast.AST, kwargs: Optional[Dict[str, Any]] = None) -> Any:
         """The value of calling a callable the path holds with values the path knows."""
+        kwargs = kwargs or {}
+        if f.kind == "bound" and hasattr(f.obj, "peval_call"):
+            r_b = f.obj.peval_call(f.name, list(args), dict(kwargs))
+            if type(r_b).__name__ == "_Raises":
+                raise _PathRaises(str(getattr(getattr(f.obj, "model", None), "last_raised", None) or "callee raises"))
+            return r_b
+        if kwargs and f.kind in ("lambda", "def"):
+            params_k = [a.arg for a in f.node.args.args]
+            if len(args) + len(kwargs) != len(params_k) or any(k not in params_k[len(args):] for k in kwargs):
+                raise _PathRaises("TypeError")
+            args = list(args) + [kwargs[p_] for p_ in params_k[len(args):]]
+            kwargs = {}
+        if kwargs:
+            return UNKNOWN
         if any(a is UNKNOWN or isinstance(a, Text) for a in args):
             return UNKNOWN
         if f.kind in ("builtin", "ext"):
@@ -649,13 +843,13 @@ class Explorer:
         o = self.oracle(t, env)
         if o is not None:
             return o
-        if _in_test.get(id(t)):
+        if _in_test.get((id(self), id(t))):
             return None
-        _in_test[id(t)] = True
+        _in_test[(id(self), id(t))] = True
         try:
             return self._test(t, env)
         finally:
-            _in_test.pop(id(t), None)
+            _in_test.pop((id(self), id(t)), None)
 
     def _test(self, t: ast.expr, env: Dict[str, Any]) -> Optional[bool]:
         if (isinstance(t, ast.Call) and isinstance(t.func, ast.Name) and t.func.id == "isinstance" and len(t.args) == 2  # noqa: PLR2004
@@ -820,6 +1014,17 @@ class Explorer:
             for x, xv in zip(t.elts[k_star + 1:], v[len(v) - after:] if after else []):
                 self._bind(x, xv, env)
             return
+        if isinstance(t, ast.Subscript) and self.heap and not isinstance(t.slice, ast.Slice):
+            base_h = self.value(t.value, env)
+            if isinstance(base_h, (list, dict)) and not isinstance(base_h, AbstractObject):
+                k_h = self.value(t.slice, env)
+                if v is UNKNOWN or k_h is UNKNOWN or isinstance(k_h, Text):
+                    raise AnalysisError(f"partial evaluation of {self.fn.qualname}: a store into a container under a key / with a value that is not known")
+                try:
+                    base_h[k_h] = v
+                except (IndexError, KeyError, TypeError) as err:
+                    raise _PathRaises(type(err).__name__) from err
+                return
         if isinstance(t, ast.Subscript) and isinstance(t.value, ast.Name) and isinstance(env.get(t.value.id), dict):
             # a store into a dictionary the path built itself: known key -> updated copy, else unknown
             k = self.value(t.slice, env)
@@ -877,6 +1082,15 @@ class Explorer:
                 try:
                     nxt.extend(self.stmt(s, e))
                 except _PathRaises as pr:
+                    if self.exact_exceptions:
+                        cls_x = str(pr.args[0]) if pr.args else "?"
+                        if self._frames:
+                            self._frames[-1].append((cls_x, e))
+                        else:
+                            self.raised.append(cls_x)
+                            self.outcomes.append(("raise", s, cls_x))
+                            self.envs.append(e)
+                        continue
                     self.raised.append(str(pr.args[0]) if pr.args else "?")
                     # this path ends here with an exception: inside a `try` body the handlers take over (they
                     # are explored anyway), elsewhere it is a way out of the function
@@ -910,7 +1124,19 @@ class Explorer:
             else:
                 env["$yields"] = tuple(env.get("$yields", ())) + (UNKNOWN,)
             return [env]
-        if (isinstance(s, ast.Expr) and self.enter_with and isinstance(s.value, ast.Call) and isinstance(s.value.func, ast.Attribute)
+        if isinstance(s, ast.Delete) and self.heap:
+            for t_d in s.targets:
+                if isinstance(t_d, ast.Subscript) and not isinstance(t_d.slice, ast.Slice):
+                    base_d, k_d = self.value(t_d.value, env), self.value(t_d.slice, env)
+                    if isinstance(base_d, (list, dict)) and not isinstance(base_d, AbstractObject) and k_d is not UNKNOWN and not isinstance(k_d, Text):
+                        try:
+                            del base_d[k_d]
+                        except (IndexError, KeyError, TypeError) as err:
+                            raise _PathRaises(type(err).__name__) from err
+                        continue
+                raise AnalysisError(f"partial evaluation of {self.fn.qualname}: `{ast.unparse(s)[:60]}` cannot be followed")
+            return [env]
+        if (isinstance(s, ast.Expr) and self.enter_with and not self.heap and isinstance(s.value, ast.Call) and isinstance(s.value.func, ast.Attribute)
                 and isinstance(s.value.func.value, ast.Name) and isinstance(env.get(s.value.func.value.id), list)
                 and s.value.func.attr in ("append", "extend", "insert") and not s.value.keywords):
             # a list the path built itself grows: the new list replaces it in this path's environment
@@ -979,6 +1205,8 @@ class Explorer:
             self.outcomes.append(("return", s, self.value(s.value, env)))
             self.envs.append(env)
             return []
+        if isinstance(s, ast.Raise) and self.exact_exceptions:
+            raise _PathRaises(self._raise_class(s, env))
         if isinstance(s, ast.Raise):
             self.outcomes.append(("raise", s, None))
             self.envs.append(env)
@@ -1000,6 +1228,67 @@ class Explorer:
                 return [env]
         if isinstance(s, (ast.Pass, ast.Import, ast.ImportFrom, ast.Global, ast.Nonlocal, ast.Assert, ast.FunctionDef, ast.AsyncFunctionDef)):
             return [env]
+        if isinstance(s, ast.Try) and self.exact_exceptions:
+            self._frames.append([])
+            try:
+                done_t = self.block(s.body, dict(env))
+            finally:
+                raised_t = self._frames.pop()
+            out_t: List[Dict[str, Any]] = []
+            for e_t in done_t:
+                out_t.extend(self.block(s.orelse, e_t))
+            for cls_t, env_t in raised_t:
+                handler = next((h for h in s.handlers if self._catches(h.type, cls_t, env_t)), None)
+                if handler is None:
+                    if s.finalbody:
+                        for e_f in self.block(s.finalbody, dict(env_t)):
+                            self._propagate(cls_t, e_f, s)
+                    else:
+                        self._propagate(cls_t, env_t, s)
+                    continue
+                eh_t = dict(env_t)
+                saved_exc = eh_t.get("$exc")
+                eh_t["$exc"] = cls_t
+                if handler.name:
+                    eh_t[handler.name] = ExcValue(self, cls_t)
+                for e_h in self.block(handler.body, eh_t):
+                    e_h = dict(e_h)
+                    if saved_exc is None:
+                        e_h.pop("$exc", None)
+                    else:
+                        e_h["$exc"] = saved_exc
+                    out_t.append(e_h)
+            if s.finalbody:
+                fin: List[Dict[str, Any]] = []
+                for e_t in out_t:
+                    fin.extend(self.block(s.finalbody, e_t))
+                return fin
+            return out_t
+        if isinstance(s, (ast.With, ast.AsyncWith)) and self.exact_exceptions and self.enter_with:
+            env_w = dict(env)
+            suppressed: Optional[ast.Call] = None
+            for it in s.items:
+                self.value(it.context_expr, env_w)
+                if isinstance(it.context_expr, ast.Call) and isinstance(it.context_expr.func, (ast.Name, ast.Attribute)) and (
+                        getattr(it.context_expr.func, "id", None) == "suppress" or getattr(it.context_expr.func, "attr", None) == "suppress"):
+                    suppressed = it.context_expr
+                if it.optional_vars is not None:
+                    for n in ast.walk(it.optional_vars):
+                        if isinstance(n, ast.Name):
+                            env_w[n.id] = UNKNOWN
+            if suppressed is None:
+                return self.block(s.body, env_w)
+            self._frames.append([])
+            try:
+                out_w = self.block(s.body, env_w)
+            finally:
+                raised_w = self._frames.pop()
+            for cls_w, e_w in raised_w:
+                if any(self._catches(a_w, cls_w, e_w) for a_w in suppressed.args):
+                    out_w.append(e_w)  # the block is abandoned there; control goes on after it
+                else:
+                    self._propagate(cls_w, e_w, s)
+            return out_w
         if isinstance(s, ast.Try) and not s.finalbody:
             # the body either completes (then `else`) or is left for one of the handlers; a handler starts
             # from the state before the `try` with everything the body assigns unknown.  `$handlers` in the
